@@ -89,6 +89,24 @@ def in_select_type_of(r, key, ent):
     return False
 
 
+def hides_homonym(r, key, ent):
+    occ0 = [o for o in r.occs if (o.file, o.line, o.col) == tuple(key[:3])]
+    if not occ0 or occ0[0].scope is None:
+        return False
+    o = occ0[0]
+    if o.role == "member":
+        # a component / binding reached through obj%...: what matters is the name of the first object of the chain
+        k, toks = o.tok_i, o.stmt.toks
+        while k >= 2 and toks[k - 1] == "%":
+            k -= 2
+        root = toks[k]
+        if isinstance(root, fmodel.Ref):
+            return any(x is not root.ent for x in fws._reachable_through_hidden(o.scope, root.spelling()))
+        return False
+    return any(x is not ent for x in fws._reachable_through_hidden(o.scope, ent.name))
+
+
+HIDDEN_LABEL = "occurrence-where-a-rename-list-hides-a-homonym-is-bound-to-the-hidden-entity"
 SELTYPE_LABEL = "select-type-selector:occurrences-inside-the-construct-are-bound-to-a-stand-in-per-type-guard"
 
 
@@ -97,6 +115,10 @@ def classify_missing(r, key, ent, all_req, query=None):
         # fortls binds the selector name inside 'select type (x)' to a per-region stand-in variable: references / rename
         # from outside do not reach the occurrences inside and vice versa
         return "missed:" + SELTYPE_LABEL
+    # the occurrence (or the occurrence the request started from) sits where a rename list hides a homonym of the entity:
+    # fortls binds it to that hidden entity
+    if hides_homonym(r, key, ent) or (query is not None and hides_homonym(r, query, ent)):
+        return "missed:" + HIDDEN_LABEL
     f, ln, c, e = key
     line = r.lines[f][ln]
     n = e - c
@@ -109,7 +131,9 @@ def classify_missing(r, key, ent, all_req, query=None):
     return f"missed:{role}:{ent.kind}"
 
 
-def classify_extra(r, prog, key, ent):
+def classify_extra(r, prog, key, ent, query=None):
+    if query is not None and hides_homonym(r, query, ent):
+        return "extra:" + HIDDEN_LABEL
     f, ln, c, e = key
     line = r.lines[f][ln] if ln < len(r.lines[f]) else ""
     w = in_string_or_comment(line, c)
@@ -121,6 +145,8 @@ def classify_extra(r, prog, key, ent):
     o = occ[0]
     if o.ent is ent:
         return f"extra:optional?{o.role}"
+    if o.scope is not None and ent in fws._reachable_through_hidden(o.scope, o.text):
+        return "extra:" + HIDDEN_LABEL
     if o.role == "remote":
         return "extra:remote-name-in-use-rename-clause-taken-for-a-local-homonym"
     return f"extra:bound-to-another-entity({o.ent.kind},{o.role})"
@@ -188,7 +214,7 @@ def check_program(ctx, prog, layout, picks, scratch, validate=True):
                     discs.append(Disc(classify_missing(r, k, e, R, q), f"{short} on {e.kind} {e.name!r} from {q[:3]}: missing {k} "
                                       f"({r.lines[k[0]][k[1]].strip()[:70]!r})", {"query": [short, q[0], q[1], q[2] + off], "missing": list(k)}))
                 for k in sorted(extra)[:3]:
-                    discs.append(Disc(classify_extra(r, prog, k, e), f"{short} on {e.kind} {e.name!r} from {q[:3]}: extra {k} "
+                    discs.append(Disc(classify_extra(r, prog, k, e, q), f"{short} on {e.kind} {e.name!r} from {q[:3]}: extra {k} "
                                       f"({(r.lines[k[0]][k[1]] if k[0] in r.lines and k[1] < len(r.lines[k[0]]) else '?').strip()[:70]!r})",
                                       {"query": [short, q[0], q[1], q[2] + off], "extra": list(k)}))
         # rename from one occurrence
@@ -221,7 +247,7 @@ def check_program(ctx, prog, layout, picks, scratch, validate=True):
             discs.append(Disc(classify_missing(r, k, e, R, q), f"rename of {e.kind} {e.name!r} from {q[:3]}: no edit for {k} "
                               f"({r.lines[k[0]][k[1]].strip()[:70]!r})", {"query": ["rename", q[0], q[1], q[2]], "missing": list(k)}))
         for k in sorted(extra)[:3]:
-            discs.append(Disc(classify_extra(r, prog, k, e), f"rename of {e.kind} {e.name!r} from {q[:3]}: edits {k} "
+            discs.append(Disc(classify_extra(r, prog, k, e, q), f"rename of {e.kind} {e.name!r} from {q[:3]}: edits {k} "
                               f"({(r.lines[k[0]][k[1]] if k[0] in r.lines and k[1] < len(r.lines[k[0]]) else '?').strip()[:70]!r})",
                               {"query": ["rename", q[0], q[1], q[2]], "extra": list(k)}))
         # round trip (only when the edit set was exactly right, otherwise the above already reports)
